@@ -89,6 +89,29 @@ static void gen_sockets(vh_rng_t *rng)
     app_cfg.udp_max_queries = vh_range(rng, 1, 2);
   }
   sim_rand_fault_permille = vh_chance(rng, 1, 2) ? vh_range(rng, 5, 80) : 0;
+  /* many sockets at once: one query per datagram socket, a dozen and more requests in the same instant, servers
+   * that take their time, socket buffers that fill up - the legacy pollers (ares_fds / ares_getsock, 16 slots
+   * with a read and a write bit each) see their tables full */
+  if (vh_chance(rng, 1, 10)) {
+    int     i;
+    int64_t t0 = (int64_t)vh_below(rng, 50000);
+    app_cfg.udp_max_queries     = 1;
+    sim_cfg.legacy_poll         = 1 + (int)vh_below(rng, 2);
+    sim_cfg.udp_wblock_permille = vh_chance(rng, 2, 3) ? 600 : 0;
+    for (i = 0; i < sim_nsrv; i++) {
+      sim_srv[i].delay_min_ms = 40;
+      sim_srv[i].delay_max_ms = 400;
+    }
+    for (i = 0; i < app_nact; i++) {
+      if (app_act[i].kind == AA_START) {
+        app_act[i].t = t0;
+      }
+    }
+    while (app_ntok < 14 && app_ntok < app_max_tokens) {
+      gen_add_token(rng, t0);
+    }
+    sim_note("sockets_many_at_once");
+  }
 }
 
 #define FE_MAXK 160
